@@ -194,7 +194,7 @@ func raceOne(f *FuncVC, o *Oblig, first *Verdict, opts SolveOpts) *Verdict {
 	file := writeScript(opts.WorkDir, sanitizeFile(f.Name)+"_one", script)
 	defer os.Remove(file)
 	if kd := os.Getenv("GCV_KEEP"); kd != "" {
-		os.WriteFile(kd+"/"+sanitizeFile(o.Name)+".smt2", []byte(script), 0o644)
+		os.WriteFile(kd+"/"+sanitizeFile(o.Name)+keepSuffix(f, o)+".smt2", []byte(script), 0o644)
 	}
 	type res struct {
 		solver string
@@ -327,4 +327,15 @@ func splitByPaths(f *FuncVC, o *Oblig, opts SolveOpts) *Verdict {
 		return nil
 	}
 	return &Verdict{Oblig: o, Status: "unsat", Solver: "path-split", Ms: total}
+}
+
+// keepSuffix distinguishes the kept scripts of obligations that share a name (one per path through a loop body):
+// the position of the obligation in the function's list (debugging aid for GCV_KEEP only).
+func keepSuffix(f *FuncVC, o *Oblig) string {
+	for i, p := range f.Obligs {
+		if p == o {
+			return fmt.Sprintf("_%d", i)
+		}
+	}
+	return ""
 }
